@@ -27,6 +27,6 @@ func main() {
 	}
 	levels := map[string]string{"C09": "exploration", "C13": "exploration", "C14": "exploration", "C20": "exploration"}
 	o, run := cli.Parse(levels)
-	monitors[o.Prop](o, run)
+	cli.Guard("monitor body", func() { monitors[o.Prop](o, run) })
 	os.Exit(run.Finish())
 }
